@@ -60,6 +60,17 @@ class C17(RecorderProp):
             draws = [[0, 1], [r.numerator, r.denominator] if r <= 1 else [1, 1], [15, 16]]
             for d in draws:
                 cases.append(op_case(skipped, rate, forced, ignore, discard, outcome, d, order))
+        # forcing must not leak: run 1 forces and is discarded (or just forces), run 2 is of a class that would be dropped
+        for first in (['force', 'discard'], ['discard', 'force'], ['force']):
+            for rate2, ignore2 in (([0, 1], False), ([1, 4], True), ([0, 1], True)):
+                c = op_case(False, [1, 1], 'force' in first, False, 'discard' in first, 'ret', [15, 16], first[0] == 'discard')
+                c['classes']['OpB'] = {'params': {'rate': rate2, 'ignore': ignore2, 'skipped': False, 'copy': False},
+                                       'classLevel': False, 'hasExtractor': False}
+                c['runs'].append({'run': 'op', 'cls': 'OpB', 'enabled': True, 'script': [{'op': 'ret', 'e': {'c': None}}],
+                                  'draws': [[15, 16]], 'clock': [5, 6]})
+                c['row2'] = {'skipped': False, 'rate': rate2, 'forced': False, 'ignore': ignore2, 'discard': False,
+                             'draw': [15, 16]}
+                cases.append(c)
         for _ in range(self.N[tier]):
             cases += self.history_group(rng, self.HIST[tier])
         for _ in range(4 if tier == 'quick' else 60):
@@ -202,6 +213,12 @@ class C17(RecorderProp):
                 fails.append('row %r: cassette saw %r, the policy says %s' % (case['row'], kinds, want))
             if r['drawn'] != want_draws:
                 fails.append('row %r: %d draws consumed, the policy consumes %d' % (case['row'], r['drawn'], want_draws))
+            if 'row2' in case:
+                want2, draws2 = verdict(case['row2'])
+                kinds2 = [k for k, _ in impl[1]['log']]
+                if kinds2 != ['create', want2] or impl[1]['drawn'] != draws2:
+                    fails.append('second run %r after a forced first run: cassette saw %r with %d draws, the policy says %s '
+                                 'with %d (forcing leaked?)' % (case['row2'], kinds2, impl[1]['drawn'], want2, draws2))
             return fails
         # seeded history: replay the documented rule on the generator's own stream
         gen = random.Random(case['seed'])
